@@ -500,6 +500,19 @@ func sourceFaults(base string, rng *rand.Rand, n int) {
 			run.Inconclusive("setup: " + err.Error())
 			return
 		}
+		aged := rng.Intn(2) == 0
+		if aged {
+			// a cache that has not been used for a while: every file was last touched hours or days ago
+			// (an output that is present and valid stays untouched however old it is)
+			old := time.Now().Add(-[]time.Duration{61 * time.Minute, 3 * time.Hour, 50 * time.Hour}[rng.Intn(3)])
+			filepath.Walk(e.dir, func(p string, info os.FileInfo, err error) error {
+				if err == nil && info.Mode().IsRegular() {
+					os.Chtimes(p, old, old)
+				}
+				return nil
+			})
+			run.Count("source_fault_cases_on_an_aged_cache", 1)
+		}
 		p := e.newPayload()
 		mode := []string{"error", "eof", "flip", "seekfail", "shorter", "longer"}[rng.Intn(6)]
 		at := []int{0, size - 1, size / 2, rng.Intn(size)}[rng.Intn(4)]
@@ -508,7 +521,7 @@ func sourceFaults(base string, rng *rand.Rand, n int) {
 		var perr error
 		pv, st := vlib.Try(func() { _, _, perr = c.Put(e.target, h) })
 		run.Eval(1)
-		fault := fmt.Sprintf("source %s at offset %d on pass %d (size %d)", mode, at, h.failPass, size)
+		fault := fmt.Sprintf("source %s at offset %d on pass %d (size %d, files aged: %v)", mode, at, h.failPass, size, aged)
 		rep := func(kind, detail string) {
 			if limited(kind + "/source") {
 				return
@@ -799,7 +812,7 @@ func main() {
 	vlib.Main("C12", "fault_enumeration", 15*time.Minute, func(r *vlib.Run) {
 		run = r
 		childBin = filepath.Join(os.Getenv("VERIF_BUILD"), "c12child")
-		r.Rule("configurations = scenario (new, overwrite, restore-same with a sharing entry, stale index entry, pre-damaged output: wrong bytes / shorter / longer) x payload size (0,1,2,4096,32767,32768,32769,160KiB) x source (memory / real file). For each: a dry run under strace lists every file syscall Put performs between two markers; then one run per syscall with SIGKILL at its entry (= halt between operations) and one per (syscall, errno). Plus RLIMIT_FSIZE short writes at 10 offsets, in-process hostile ReadSeekers (error / early EOF / flipped byte / failing Seek / shorter / longer second pass), and SIGKILL of a looping writer at random times. Non-trivial/distinct = distinct (configuration, fault kind, syscall index) whose injection was confirmed, from the injected run's own trace, to have landed on the intended syscall inside Put.")
+		r.Rule("configurations = scenario (new, overwrite, restore-same with a sharing entry, stale index entry, pre-damaged output: wrong bytes / shorter / longer) x payload size (0,1,2,4096,32767,32768,32769,160KiB) x source (memory / real file). For each: a dry run under strace lists every file syscall Put performs between two markers; then one run per syscall with SIGKILL at its entry (= halt between operations) and one per (syscall, errno). Plus RLIMIT_FSIZE short writes at 10 offsets, in-process hostile ReadSeekers (error / early EOF / flipped byte / failing Seek / shorter / longer second pass; half of them on a cache whose files were last touched 61 min / 3 h / 50 h ago), and SIGKILL of a looping writer at random times. Non-trivial/distinct = distinct (configuration, fault kind, syscall index) whose injection was confirmed, from the injected run's own trace, to have landed on the intended syscall inside Put.")
 		r.Assume("crash = the process stops (SIGKILL); page-cache / power loss is out of scope (the code does not fsync)")
 		r.Assume("the cache keeps no in-memory state, so opening the directory afresh in the harness process is equivalent to a fresh verifier process")
 		if _, err := exec.LookPath("strace"); err != nil {
